@@ -20,7 +20,13 @@ sed -i "s|path = \"/repo\"|path = \"$D/repo\"|" "$D/sim/Cargo.toml"
 cp /dev/shm/try-target/release/scsim "$D/scsim"
 mkdir -p "$D/verif"
 for c in $CHECKS; do
-  OUT=$(SCSIM_VERIF="$D/verif" "$D/scsim" check "$c" --tier quick --no-evidence 2>&1); RC=$?
+  # TRY_RUNS_DIV=N: first with 1/N of the runs; a PASS is repeated with the full number
+  if [ -n "$TRY_RUNS_DIV" ]; then
+    OUT=$(SCSIM_VERIF="$D/verif" "$D/scsim" check "$c" --tier quick --no-evidence --runs-div "$TRY_RUNS_DIV" 2>&1); RC=$?
+    if [ $RC -eq 0 ]; then OUT=$(SCSIM_VERIF="$D/verif" "$D/scsim" check "$c" --tier quick --no-evidence 2>&1); RC=$?; fi
+  else
+    OUT=$(SCSIM_VERIF="$D/verif" "$D/scsim" check "$c" --tier quick --no-evidence 2>&1); RC=$?
+  fi
   V=$(echo "$OUT" | grep -c '^VIOLATION')
   FIRST=$(echo "$OUT" | grep -m1 '^violation:' | cut -c1-240)
   case $RC in
